@@ -271,6 +271,13 @@ Proof.
   - destruct Hin as [->|Hin]; [congruence|]. now apply IH.
 Qed.
 
+Definition keq_value (a b : pid_entry) : bool := (fst (fst a) =? fst (fst b)) && (snd (fst a) =? snd (fst b)).
+Definition keq_name (a b : pid_entry) : bool := (fst (fst a) =? fst (fst b)) && list_eqb (snd a) (snd b).
+Lemma shipped_nodup_value : nodupb keq_value PidDescs.pids = true.
+Proof. vm_compute. reflexivity. Qed.
+Lemma shipped_nodup_name : nodupb keq_name PidDescs.pids = true.
+Proof. vm_compute. reflexivity. Qed.
+
 Lemma shipped_lookup_pid man pid :
   match find_pid PidDescs.pids man pid with
   | Some e => In e PidDescs.pids /\ fst (fst e) = man /\ snd (fst e) = pid /\
@@ -278,13 +285,12 @@ Lemma shipped_lookup_pid man pid :
   | None => forall e', In e' PidDescs.pids -> ~ (fst (fst e') = man /\ snd (fst e') = pid)
   end.
 Proof.
-  destruct shipped_store_consistent as [Hc _]. unfold store_consistent in Hc.
-  repeat (apply andb_prop in Hc as [Hc ?]).
+  pose proof shipped_nodup_value as Hc. pose proof shipped_nodup_name as Hcn.
   unfold find_pid. destruct (find _ PidDescs.pids) as [e|] eqn:E.
-  - pose proof (find_some _ _ E) as [Hin Hp]. apply andb_prop in Hp as [H1 H2].
-    apply N.eqb_eq in H1, H2. repeat split; try assumption.
+  - pose proof (find_some _ _ E) as [Hin Hp]. apply andb_prop in Hp as [K1 K2].
+    apply N.eqb_eq in K1, K2. repeat split; try assumption.
     intros e' Hin' M P.
-    refine (find_unique _ _ _ Hc _ e E e' Hin' _).
+    refine (find_unique keq_value _ _ Hc _ e E e' Hin' _).
     + intros a b Ha Hb. apply andb_prop in Ha as [A1 A2]. apply andb_prop in Hb as [B1 B2].
       apply N.eqb_eq in A1, A2, B1, B2. apply andb_true_intro. split; apply N.eqb_eq; congruence.
     + apply andb_true_intro. split; apply N.eqb_eq; assumption.
@@ -299,13 +305,12 @@ Lemma shipped_lookup_name man name :
   | None => forall e', In e' PidDescs.pids -> ~ (fst (fst e') = man /\ snd e' = name)
   end.
 Proof.
-  destruct shipped_store_consistent as [Hc _]. unfold store_consistent in Hc.
-  repeat (apply andb_prop in Hc as [Hc ?]).
+  pose proof shipped_nodup_value as Hc. pose proof shipped_nodup_name as Hcn.
   unfold find_name. destruct (find _ PidDescs.pids) as [e|] eqn:E.
   - pose proof (find_some _ _ E) as [Hin Hp]. apply andb_prop in Hp as [H2 H3].
     apply N.eqb_eq in H2. apply list_eqb_eq in H3. repeat split; try assumption.
     intros e' Hin' M P.
-    refine (find_unique _ _ _ H0 _ e E e' Hin' _).
+    refine (find_unique keq_name _ _ Hcn _ e E e' Hin' _).
     + intros a b Ha Hb. apply andb_prop in Ha as [A1 A2]. apply andb_prop in Hb as [B1 B2].
       apply N.eqb_eq in A1, B1. apply list_eqb_eq in A2, B2. apply andb_true_intro.
       split; [apply N.eqb_eq|apply list_eqb_eq]; congruence.
